@@ -66,14 +66,22 @@ func encCluster(c *fakecluster.Cluster) string {
 	return fmt.Sprintf("%d/%s/%s", c.Controller, strings.Join(bs, ","), dash(strings.Join(ts, "|")))
 }
 
+func dashAll(topics []string) string {
+	if len(topics) == 0 {
+		return "all"
+	}
+	return strings.Join(topics, ",")
+}
+
 func opGroupAndMeta(r *rand.Rand, scenarios int) {
 	for s := 0; s < scenarios; s++ {
 		c := fakecluster.New()
-		nb := 1 + r.Intn(4)
-		for id := 0; id < nb; id++ {
-			c.AddBroker(int32(id))
+		ids, boot := fakecluster.PickBrokers(r, 1, 4)
+		nb := len(ids)
+		for _, id := range ids {
+			c.AddBroker(id)
 		}
-		c.Controller = int32(r.Intn(nb))
+		c.Controller = ids[r.Intn(nb)]
 		known := names[:6]
 		for _, n := range known {
 			t := &fakecluster.Topic{Parts: map[int32]*fakecluster.Part{}}
@@ -81,9 +89,9 @@ func opGroupAndMeta(r *rand.Rand, scenarios int) {
 				t.Internal = true
 			}
 			for p := int32(0); p < int32(1+r.Intn(4)); p++ {
-				l := int32(r.Intn(nb))
+				l := ids[r.Intn(nb)]
 				part := &fakecluster.Part{Leader: l, Replicas: []int32{l}, Isr: []int32{l}}
-				if x := int32(r.Intn(nb)); x != l {
+				if x := ids[r.Intn(nb)]; x != l {
 					part.Replicas = append(part.Replicas, x)
 					if r.Intn(2) == 0 {
 						part.Isr = append(part.Isr, x)
@@ -97,19 +105,18 @@ func opGroupAndMeta(r *rand.Rand, scenarios int) {
 			c.Topics[n] = t
 		}
 		group := "g" + strconv.Itoa(r.Intn(5))
-		c.GroupCoord[group] = int32(r.Intn(nb))
+		c.GroupCoord[group] = ids[r.Intn(nb)]
 		// committed state and per-partition errors
 		c.Committed[group] = map[string]map[int32]fakecluster.Committed{}
 		for _, n := range known {
 			for p := range c.Topics[n].Parts {
 				switch r.Intn(4) {
-				case 0, 1:
+				case 0, 1, 2:
 					if c.Committed[group][n] == nil {
 						c.Committed[group][n] = map[int32]fakecluster.Committed{}
 					}
 					c.Committed[group][n][p] = fakecluster.Committed{Offset: int64(r.Intn(1000)), Metadata: []string{"", "m", "meta1"}[r.Intn(3)]}
-				case 2:
-					if r.Intn(3) == 0 {
+					if r.Intn(6) == 0 { // an error on a partition the group has committed (so that the all-topics form lists it)
 						if c.CommitErr[n] == nil {
 							c.CommitErr[n] = map[int32]int16{}
 						}
@@ -119,7 +126,7 @@ func opGroupAndMeta(r *rand.Rand, scenarios int) {
 			}
 		}
 		tr := &kafka.Transport{Dial: c.Dial, MetadataTTL: 5 * time.Second}
-		cl := &kafka.Client{Addr: kafka.TCP(c.Brokers[0].Addr()), Transport: tr, Timeout: 5 * time.Second}
+		cl := &kafka.Client{Addr: kafka.TCP(c.Brokers[boot].Addr()), Transport: tr, Timeout: 5 * time.Second}
 		encState := func() string {
 			var st []string
 			for n, ps := range c.Committed[group] {
@@ -162,9 +169,16 @@ func opGroupAndMeta(r *rand.Rand, scenarios int) {
 			c.Lock()
 			st := encState()
 			c.Unlock()
-			if len(req.Topics) > 0 {
+			form := strings.Join(enc, "|")
+			if len(req.Topics) == 0 { // "all topics of the group": a nil map and an empty map are both sent as a null array
+				form = "empty"
+				if r.Intn(2) == 0 {
+					req.Topics, form = nil, "nil"
+				}
+			}
+			{
 				res, err := cl.OffsetFetch(context.Background(), req)
-				op := fmt.Sprintf("ofetch %s %s", st, strings.Join(enc, "|"))
+				op := fmt.Sprintf("ofetch %s %s", st, form)
 				if err != nil {
 					emit(op, "err")
 				} else {
@@ -302,24 +316,36 @@ func opGroupAndMeta(r *rand.Rand, scenarios int) {
 			emit(op, fmt.Sprintf("%d/%s/%s", res.Controller.ID, strings.Join(bs, ","), dash(strings.Join(ts, "|"))))
 		}
 
-		// ---- Conn.ReadPartitions (metadata v1 or v6 by negotiation)
-		for i := 0; i < 3; i++ {
-			b := c.Brokers[0]
+		// ---- Conn.ReadPartitions (metadata v1 or v6 by negotiation; with and without a connection topic; topic errors)
+		for i := 0; i < 5; i++ {
+			b := c.Brokers[boot]
 			b.Versions = nil
-			if i == 1 {
+			if i%2 == 1 {
 				b.Versions = map[protocol.ApiKey]fakecluster.VRange{protocol.Metadata: {Min: 0, Max: 3}}
 			}
+			c.Lock()
+			for _, n := range known { // a topic-level error now and then
+				c.Topics[n].Err = 0
+				if r.Intn(7) == 0 {
+					c.Topics[n].Err = int16([]int{5, 29}[r.Intn(2)])
+				}
+			}
+			c.Unlock()
 			var topics []string
-			for k := 0; k < 1+r.Intn(3); k++ {
+			for k := 0; k < r.Intn(4); k++ { // no topic at all = the connection's topic, or every topic of the cluster (null array on the wire)
 				topics = append(topics, known[r.Intn(len(known))])
+			}
+			connTopic := ""
+			if r.Intn(2) == 0 {
+				connTopic = known[r.Intn(len(known))]
 			}
 			c.Lock()
 			enc := encCluster(c)
 			c.Unlock()
-			conn := kafka.NewConn(c.Pipe(0), "", 0)
+			conn := kafka.NewConn(c.Pipe(boot), connTopic, 0)
 			conn.SetDeadline(time.Now().Add(10 * time.Second))
 			parts, err := conn.ReadPartitions(topics...)
-			op := fmt.Sprintf("rparts %s %s", strings.Join(topics, ","), enc)
+			op := fmt.Sprintf("rparts %s %s %s", dash(connTopic), dashAll(topics), enc)
 			if err != nil {
 				emit(op, fmt.Sprintf("err %d", errCode(err)))
 			} else {
@@ -332,6 +358,11 @@ func opGroupAndMeta(r *rand.Rand, scenarios int) {
 			}
 			conn.Close()
 		}
+		c.Lock()
+		for _, n := range known {
+			c.Topics[n].Err = 0
+		}
+		c.Unlock()
 		tr.CloseIdleConnections()
 		c.Close()
 	}
